@@ -399,7 +399,7 @@ FORCED = [(3, 'simple', dict(chem='file-square')), (2, 'array', dict(chem='file-
           (3, 'array', dict(klass='file', orient='top_first')),
           # every built-in temperature component, as built and after evaluation (and after a settings history for those
           # that read the pressure array); every gas type
-          (6, 'simple', dict(temp='guillot', chem='taurex', gas='power')), (5, 'evaluated', dict(temp='guillot', mkind='transmission-old-path')),
+          (6, 'simple', dict(temp='guillot', chem='taurex', gas='power')), (5, 'evaluated', dict(temp='guillot', mkind='transmission-old-path', contribs=['flatmie', 'absorption', 'leemie'])),
           (1, 'simple', dict(temp='guillot')), (7, 'history', dict(temp='guillot')),
           (7, 'simple', dict(temp='npoint', chem='taurex', gas='twolayer')), (4, 'evaluated', dict(temp='npoint', mkind='emission')),
           (5, 'history', dict(temp='npoint')),
@@ -494,6 +494,7 @@ def random_model(rng, n, pkind, X, force=None):
         which = ['absorption'] + [w for w in ('rayleigh', 'clouds') if rng.random() < 0.6] + \
                 [w for w in ('flatmie', 'leemie') if rng.random() < 0.25]
         rng.shuffle(which)
+        which = list(force.get('contribs') or which)
         add_contributions(model, which, 10.0 ** rng.uniform(lmin, lmax))
     model.build()
     if pkind == 'history':
@@ -930,11 +931,12 @@ def run_canaries(events, allbad):
 def structure(model, C):
     """The full vertical structure as exposed after (re-)initialisation."""
     gen = model.generate_profiles()
-    return dict(levels=np.asarray(model.pressure.pressure_profile_levels), layers=np.asarray(model.pressureProfile),
+    return dict(levels=np.array(model.pressure.pressure_profile_levels), layers=np.array(model.pressureProfile),     # (copies)
                 z=np.asarray(model.altitude_boundaries), zl=np.asarray(model.altitudeProfile), dz=np.asarray(model.deltaz),
                 g=np.asarray(model.gravity_profile), H=np.asarray(model.scaleheight_profile),
                 rho=np.asarray(model.densityProfile), T=np.asarray(model.temperatureProfile),
                 mu=np.asarray(model.chemistry.muProfile), g0=float(model.planet.gravity),
+                layers_reread=np.array(model.pressureProfile), levels_reread=np.array(model.pressure.pressure_profile_levels),
                 stored={k: np.asarray(v) for k, v in gen.items() if k in LAYER_KEYS})
 
 
@@ -1055,8 +1057,8 @@ def run(ctx):
     q = ctx.tier == 'quick'
     ctx.bounds = dict(tier=ctx.tier,
                       exhaustive='n<=3 layers, integer log10 level exponents (spacing 2 or 4), T in {1,2,3}, mu in {1,2}, rad 8, GM in {64,128} (exact rationals)',
-                      vectors='every exported grid through SimplePressureProfile and (n>=2) Array/FilePressureProfile in the spec\'s input options (surface first; top first + reverse), two unit maps',
-                      traces='n in 1..200, random planets (H0/R 1e-4..~0.03), pressure ranges 1e-6..1e7 Pa, random T (200..3000 K); composition from ChemistryFile tables (2..6 gases, square tables included) or TaurexChemistry with ArrayGas/ConstantGas; second route Planet.calculate_scale_properties in %s; models observed as built, after a settings history, or after evaluation (%s)' % ('/'.join(UNITS), ', '.join(MODEL_KINDS)))
+                      vectors='every exported grid through SimplePressureProfile and (n>=2) Array/FilePressureProfile in the spec\'s input options (surface first; top first + reverse), two unit maps; the temperature component rotates through the kinds the spec exports for the vector (%s)' % ', '.join(TOLD_KINDS),
+                      traces='n in 1..200, random planets (H0/R 1e-4..~0.03), pressure ranges 1e-6..1e7 Pa, random T (200..3000 K); composition from ChemistryFile tables (2..6 gases, square tables included) or TaurexChemistry with ArrayGas/ConstantGas; second route Planet.calculate_scale_properties in %s; models observed as built, after a settings history, or after evaluation (%s); temperature component of every built-in type (%s), gases of every type (%s); every exposed array read twice, arrays handed to public calls compared with private copies' % ('/'.join(UNITS), ', '.join(MODEL_KINDS), ', '.join(TEMP_KINDS), ', '.join(GAS_TYPES)))
     ctx.assumptions = ['ln(P_i/P_{i+1}) is evaluated by the harness (math.log) from the exposed levels',
                        'physical constants (k_B, G, amu) are those of taurex.constants; planet mass/radius are read in SI from the Planet object',
                        'TLC + CommunityModules Json/IOUtils; spec/Dec.tla decimal arithmetic',
@@ -1066,7 +1068,10 @@ def run(ctx):
                        'molecular masses are those of taurex.util.get_molecular_weight (how mu is computed is C10); binding A states the masses of the spec vector to the real ChemistryFile',
                        'metres per length unit: IAU nominal values, cross-checked against astropy',
                        'the declared chemistry tables have pairwise distinct entries (checked by TLC on every chem event); ArrayGas arrays have one entry per layer',
-                       'second-route and chem events of grids longer than 12 / 60 layers log a fixed sample of layers (the obligations are local)']
+                       'second-route and chem events of grids longer than 12 / 60 layers log a fixed sample of layers (the obligations are local)',
+                       'reads events: whole-array identity of the two reads (shape and every entry, NaN = NaN) is decided by numpy and logged as a flag; TLC compares the flag and a fixed sample of six entries exactly',
+                       'component settings are drawn so that temperatures stay within about 200..3000 K (Guillot2010: surface optical depth below 1e4); NPoint nodes lie strictly inside the pressure range, none besides surface and top when the range is changed afterwards; TwoPointGas needs two layers; mixing ratios sum to less than 1',
+                       'binding A: a temperature component that is TOLD the per-layer temperatures must expose them (1e-9): pressure nodes are the layer pressures the vector declares']
     tier = ctx.tier
     t0 = time.time()
     # the design-level TLC runs are independent processes: run them side by side while taurex is imported
@@ -1110,7 +1115,7 @@ def run(ctx):
     from .. import history
     nh = history.run_history(ctx, history_scenarios(X), 8 if q else 60)
     ctx.note('wall: design-level TLC + import %.0f s, vectors %.0f s, traces %.0f s, history %.0f s' % (t1 - t0, t2 - t1, t3 - t2, time.time() - t3))
-    ctx.note('binding C: %d history walks on long-lived models (planet / grid / one-layer / emission settings), every model evaluated before its structure is read' % nh)
+    ctx.note('binding C: %d history walks on long-lived models (planet: Guillot2010 + TwoLayerGas / grid: Rodgers2000 + TwoPointGas / one-layer: default components / emission: NPoint + PowerGas), every model evaluated before its structure is read' % nh)
 
 
 def replay(ctx, violations):
